@@ -549,7 +549,12 @@ impl Exporter {
             } else {
                 rng.range(1, 20) as u16
             };
-            return IpfixSpec { type_num: rng.u16() & 0x7fff, len, enterprise: Some(rng.b32()) };
+            // private enterprise numbers that exist (29305 = the IPFIX "reverse" PEN of RFC 5103, whose
+            // element ids are the IANA ones; Cisco, Juniper, Citrix, ntop, Fortinet, Palo Alto) next
+            // to boundary values; element ids that collide with IANA ids next to arbitrary ones
+            let pen = if rng.chance(1, 2) { *rng.pick(&[29305u32, 9, 2636, 6871, 35632, 12356, 25461, 0, 1, 0xffff_ffff, 0x8000_0000]) } else { rng.b32() };
+            let ty = if rng.chance(1, 2) { *rng.pick(&pools.ipfix_known) } else { rng.u16() & 0x7fff };
+            return IpfixSpec { type_num: ty, len, enterprise: Some(pen) };
         }
         let t = if cfg.projected && rng.chance(2, 3) {
             *rng.pick(IPFIX_PROJECTED)
